@@ -11,6 +11,21 @@ From V.proofs Require RenderProofs.
 From Coq Require Import ZArith ZifyN ZifyNat ZifyBool.
 
 (* ---------------- the generated decoders are total and stay inside the arrays ---------------- *)
+(* the documented address of every I/O register *)
+Definition reg_addr (r : ioreg) : N :=
+  match r with
+  | R_JOYP => 0xFF00 | R_SB => 0xFF01 | R_SC => 0xFF02 | R_DIV => 0xFF04 | R_TIMA => 0xFF05 | R_TMA => 0xFF06 | R_TAC => 0xFF07
+  | R_IF => 0xFF0F
+  | R_NR10 => 0xFF10 | R_NR11 => 0xFF11 | R_NR12 => 0xFF12 | R_NR13 => 0xFF13 | R_NR14 => 0xFF14
+  | R_NR21 => 0xFF16 | R_NR22 => 0xFF17 | R_NR23 => 0xFF18 | R_NR24 => 0xFF19
+  | R_NR30 => 0xFF1A | R_NR31 => 0xFF1B | R_NR32 => 0xFF1C | R_NR33 => 0xFF1D | R_NR34 => 0xFF1E
+  | R_NR41 => 0xFF20 | R_NR42 => 0xFF21 | R_NR43 => 0xFF22 | R_NR44 => 0xFF23
+  | R_NR50 => 0xFF24 | R_NR51 => 0xFF25 | R_NR52 => 0xFF26
+  | R_LCDC => 0xFF40 | R_STAT => 0xFF41 | R_SCY => 0xFF42 | R_SCX => 0xFF43 | R_LY => 0xFF44 | R_LYC => 0xFF45
+  | R_DMA => 0xFF46 | R_BGP => 0xFF47 | R_OBP0 => 0xFF48 | R_OBP1 => 0xFF49 | R_WY => 0xFF4A | R_WX => 0xFF4B
+  | R_IE => 0xFFFF
+  end.
+
 Definition handler_okb (rd : bool) (h : handler) (a : N) : bool :=
   match h with
   | HPanic => false
@@ -20,7 +35,7 @@ Definition handler_okb (rd : bool) (h : handler) (a : N) : bool :=
   | HOam => (0xFE00 <=? a) && (a <=? 0xFEFF)
   | HWaveRAM => (0xFF30 <=? a) && (a <? 0xFF40)
   | HMbc => (a <? 0x8000) || ((0xA000 <=? a) && (a <? 0xC000))
-  | HReg _ => 0xFF00 <=? a
+  | HReg r => a =? reg_addr r
   | HConstFF => 0xFF00 <=? a
   end.
 
@@ -310,11 +325,12 @@ Proof.
 Qed.
 
 Theorem sys_read_safe s a : bus_inv s -> a < 65536 ->
-  exists s' v, sys_read s a = Ok (s', v) /\ v < 256 /\ bus_inv s' /\ only_oam_flags s s' /\ (a < 0xFE00 -> s' = s).
+  exists s' v, sys_read s a = Ok (s', v) /\ v < 256 /\ bus_inv s' /\ only_oam_flags s s' /\
+               (~ (0xFE00 <= a /\ a <= 0xFEFF) -> s' = s).
 Proof.
   intros H Ha. destruct (decoder_ok a Ha) as [D _]. unfold sys_read.
   assert (Same : forall v, v < 256 -> exists s' v', Ok (s, v) = Ok (s', v') /\ v' < 256 /\ bus_inv s' /\ only_oam_flags s s' /\
-                                                  (a < 0xFE00 -> s' = s)).
+                                                  (~ (0xFE00 <= a /\ a <= 0xFEFF) -> s' = s)).
   { intros v Hv. exists s, v. split; [reflexivity|]. split; [exact Hv|]. split; [exact H|]. split; [apply only_oam_flags_refl|reflexivity]. }
   destruct (read_handler a) eqn:E; cbn [handler_okb] in D.
   - destruct (cart_ok_read _ a (BI_cart _ H)) as (v & Ev & Hv). rewrite Ev. cbn [bind]. apply Same, Hv.
@@ -326,7 +342,7 @@ Proof.
     destruct (oam_read_inv _ _ _ _ Ev (BI_oam _ H)) as [Ho Hv]. destruct (read_env _ _ _ _ Ev) as [C1 C2].
     exists (set_oam o' s), v. split; [reflexivity|]. split; [exact Hv|]. split.
     + apply bi_set_oam; [exact H|apply (lcd_inv_env _ _ _ (BI_lcd _ H)); assumption|exact Ho].
-    + split; [|intros X; change 0xFE00 with 65024 in *; lia].
+    + split; [|intros X; exfalso; apply X; lia].
       exists o'. split; [reflexivity|]. split; [eapply oam_read_engine, Ev|].
       destruct (oam_read_wflags _ _ _ _ Ev) as (W1 & W2 & W3). repeat split; assumption.
   - apply Same. apply reg_read_byte, H.
@@ -523,7 +539,7 @@ Proof.
                  end = Ok s).
     { destruct (dma_source (s_oam s)) as [a|] eqn:Ed; [|reflexivity].
       destruct (sys_read_safe s a H (dma_source_lt _ _ (BI_oam _ H) Ed)) as (s' & v & Er & _ & _ & _ & Pure).
-      rewrite Er. cbn [bind fst]. rewrite (Pure (dma_source_low _ _ (BI_oam _ H) Ed)). reflexivity. }
+      rewrite Er. cbn [bind fst]. rewrite Pure; [reflexivity|]. pose proof (dma_source_low _ _ (BI_oam _ H) Ed). lia. }
     rewrite S1. cbn [bind].
     set (rd := fun a => match sys_read s a with Ok r => snd r | _ => 255 end).
     destruct (tick_dma_safe rd (s_oam s) (OI_dma _ (BI_oam _ H))) as (o' & Eo & _).
